@@ -299,6 +299,8 @@ theorem regexec_sound {pat : Bytes} {flg : Nat} {prog : Prog} (hc : regcomp pat 
   · cases hc
   · cases hc
   · rename_i t0 hparse
+    split at hc
+    · cases hc
     injection hc with hc; injection hc with hc
     have hcode : prog.code = [Inst.mark 0] ++ emit (grpnum t0 1).1 1 ++ [Inst.mark 1, Inst.mtch] := by
       rw [← hc]
